@@ -270,6 +270,7 @@ def regex_relation(r1, r2):
     return _REGEX_REL[key][0]
 
 
+MODEL_REUSE = not os.environ.get("PYVC_NO_MODEL_REUSE")  # fallback switch used by run_check.py when a worker dies
 FOLD_REGISTRY = {}  # fold-step hash -> (kinds, accumulators, index, results): the steps met while verifying one contract
 
 
@@ -412,15 +413,27 @@ class Interp:
         self.solver_calls += 1
         if c is None:
             r = self.solver.check()
+            if r == z3.sat and MODEL_REUSE:
+                self._take_model()
         else:
-            r = self.solver.check(c)
-        if r == z3.sat:
+            # (push / add / check / pop rather than check(assumption): reading a model after a check
+            # under a non-literal assumption crashed z3 5.1.0 natively on sequence formulas)
+            self.solver.push()
             try:
-                self.model = self.solver.model()
-                self.model_ok = len(self.pc)
-            except z3.Z3Exception:
-                self.model = None
+                self.solver.add(c)
+                r = self.solver.check()
+                if r == z3.sat and MODEL_REUSE:
+                    self._take_model()
+            finally:
+                self.solver.pop()
         return r != z3.unsat
+
+    def _take_model(self):
+        try:
+            self.model = self.solver.model()
+            self.model_ok = len(self.pc)
+        except z3.Z3Exception:
+            self.model = None
 
     def model_says(self, c):
         """True/False when the last satisfying assignment found on this path still satisfies the
